@@ -1008,11 +1008,11 @@ Lemma all_lines_app w eol a b : all_lines w eol (a ++ b) = all_lines w eol a ++ 
 Proof. unfold all_lines. apply flat_map_app. Qed.
 
 (* ---- facts about characters *)
-Lemma LF_space c : is_space c = false -> Ascii.eqb c LF = false.
+Lemma LF_space c : is_bspace c = false -> Ascii.eqb c LF = false.
 Proof.
   intro H. destruct (Ascii.eqb_spec c LF) as [->|]; [|reflexivity]. discriminate H.
 Qed.
-Lemma CR_space c : is_space c = false -> Ascii.eqb c CR = false.
+Lemma CR_space c : is_bspace c = false -> Ascii.eqb c CR = false.
 Proof.
   intro H. destruct (Ascii.eqb_spec c CR) as [->|]; [|reflexivity]. discriminate H.
 Qed.
@@ -1096,26 +1096,26 @@ Qed.
 Definition word_split : str -> str * str :=
   fix tw (l : str) : str * str :=
     match l with
-    | c :: t => if is_space c then ([], l) else let '(a, b) := tw t in (c :: a, b)
+    | c :: t => if is_bspace c then ([], l) else let '(a, b) := tw t in (c :: a, b)
     | [] => ([], [])
     end.
 
 Lemma first_word_eq x :
-  first_word x = match lstrip_space x with [] => None | y => Some (fst (word_split y)) end.
-Proof. unfold first_word. destruct (lstrip_space x); reflexivity. Qed.
+  first_word x = match lstrip_bspace x with [] => None | y => Some (fst (word_split y)) end.
+Proof. unfold first_word. destruct (lstrip_bspace x); reflexivity. Qed.
 
 Definition starts_space (x : str) : Prop :=
-  match x with c :: _ => is_space c = true | [] => True end.
+  match x with c :: _ => is_bspace c = true | [] => True end.
 
 Lemma word_split_name n : forall rest,
-  forallb (fun c => negb (is_space c)) n = true -> starts_space rest ->
+  forallb (fun c => negb (is_bspace c)) n = true -> starts_space rest ->
   word_split (n ++ rest) = (n, rest).
 Proof.
   induction n as [|c n IH]; intros rest Hn Hr.
   - cbn [app]. destruct rest as [|d rest]; [reflexivity|]. cbn in Hr. cbn. rewrite Hr. reflexivity.
   - cbn [forallb] in Hn. apply andb_true_iff in Hn as [Hc Hn]. apply negb_true_iff in Hc.
     cbn [app]. change (word_split (c :: n ++ rest))
-      with (if is_space c then ([], c :: n ++ rest)
+      with (if is_bspace c then ([], c :: n ++ rest)
             else let '(a, b) := word_split (n ++ rest) in (c :: a, b)).
     rewrite Hc, IH by assumption. reflexivity.
 Qed.
@@ -1125,9 +1125,9 @@ Lemma first_word_hdr eol r : eol_ok eol -> record_ok r ->
 Proof.
   intros He ((Hne & Hn) & Hd & _). rewrite first_word_eq.
   destruct (r_name r) as [|c n] eqn:En; [contradiction|].
-  assert (Hc : is_space c = false).
+  assert (Hc : is_bspace c = false).
   { cbn [forallb] in Hn. apply andb_true_iff in Hn as [Hc _]. apply negb_true_iff in Hc. exact Hc. }
-  cbn [app lstrip_space]. rewrite Hc.
+  cbn [app lstrip_bspace]. rewrite Hc.
   change (c :: n ++ r_desc r ++ eol) with ((c :: n) ++ r_desc r ++ eol).
   rewrite word_split_name; [reflexivity | exact Hn |].
   destruct (r_desc r) as [|d ds].
